@@ -914,6 +914,15 @@ func hostileFrames(c *core.Ctx, r *core.Rand, i int) {
 		conn.Close()
 		<-rdone
 		frames := nframes.Load()
+		if framed && frames == 0 && len(data) >= 3 && int(data[0])<<16|int(data[1])<<8|int(data[2]) == kmip.TagResponseMessage {
+			// a well-formed RESPONSE message sent by a client is not a request: the server ignores it by design
+			var rm kmip.ResponseMessage
+			if ttlv.UnmarshalTTLV(append([]byte{}, data...), &rm) == nil {
+				c.Count("hostile_inputs_client_originated_response", 1)
+				c.Distinct(core.HashBytes(data))
+				return
+			}
+		}
 		if framed && frames != 1 && serverQuiescent() {
 			c.Violation("C08:framed-hostile-request-answers", fmt.Sprintf("a correctly framed hostile request (%s) was answered with %d responses", class, frames), map[string]any{"input": fmt.Sprintf("%x", data)})
 		}
